@@ -597,7 +597,7 @@ func checkWholeCandidateRejection(p *core.Program, r *core.Report, g *charGen, r
 					}
 				}
 			}
-			if ref, ok := core.LoadPath(a); ok && g.recvCopy != nil && ref.Root == ssa.Value(g.recvCopy) && ref.Path == ".requiredSets" {
+			if ref, ok := core.LoadPath(a); ok && g.recvCopy != nil && ref.Root == ssa.Value(g.recvCopy) && ref.Path == "."+requiredSetsField(p) {
 				if g.builder != nil && core.InstrDominates(g.builder, filt) {
 					okReq = true
 				}
@@ -776,7 +776,7 @@ func checkFilterAllOf(p *core.Program, r *core.Report, g *charGen, rule string) 
 func isRequiredStrings(p *core.Program, g *charGen, v ssa.Value) bool {
 	fromBuilder := func(x ssa.Value) bool {
 		ref, okP := core.LoadPath(x)
-		if !okP || ref.Root != ssa.Value(g.recvCopy) || ref.Path != ".requiredSets" {
+		if !okP || ref.Root != ssa.Value(g.recvCopy) || ref.Path != "."+requiredSetsField(p) {
 			return false
 		}
 		ld, isLd := x.(ssa.Instruction)
